@@ -21,10 +21,10 @@ vars == <<v, d>>
 
 Leaf(b) == V(<<b>>, "leaf", FALSE, "@", <<>>, <<>>)
 ZLeaf == V(<<"int">>, "leaf", FALSE, "7", <<>>, <<>>)
-KeyFor(kk) == CASE kk = "string" -> [kt |-> "string", kv |-> "a"] [] kk = "int" -> [kt |-> "int", kv |-> "1"]
-                [] kk = "bool" -> [kt |-> "bool", kv |-> "true"] [] kk = "named" -> [kt |-> "named", kv |-> "a"]
-AnyKeys == {[kt |-> "string", kv |-> "a"], [kt |-> "int", kv |-> "1"], [kt |-> "named", kv |-> "a"], [kt |-> "bool", kv |-> "true"]}
-Key2 == [kt |-> "string", kv |-> "b"]
+KeyFor(kk) == CASE kk = "string" -> K("string", "a") [] kk = "int" -> K("int", "1")
+                [] kk = "bool" -> K("bool", "true") [] kk = "named" -> K("named", "a")
+AnyKeys == {K("string", "a"), K("int", "1"), K("named", "a"), K("bool", "true")}
+Key2 == K("string", "b")
 
 Unsupported(x) == IsContainerTok(Strip(x.t)[1]) \/ "unreg" \in RangeS(x.t)
 (* static position: element type = dynamic type of x *)
@@ -37,7 +37,9 @@ Wraps(x) ==
       {Slice(x.t, FALSE, <<x>>), Slice(x.t, TRUE, <<>>), Slice(x.t, FALSE, <<>>),
        V(<<"arr1">> \o x.t, "arr", FALSE, "", <<>>, <<x>>)}
       \cup (IF x.k = "ptr" THEN {Slice(x.t, FALSE, <<x, NilPtrOf(x.t)>>)} ELSE {})
-      \cup {Map(kk, x.t, FALSE, <<KeyFor(kk)>>, <<x>>) : kk \in KeyKinds \ {"any"}}
+      \cup {Map(kk, x.t, FALSE, <<KeyFor(kk)>>, <<x>>) : kk \in KeyKinds \ ({"any"} \cup StructKeyKinds)}
+      \cup (* struct keys: three entries whose keys differ in which field is zero *)
+           {Map(kk, x.t, FALSE, <<SK(kk, "a", "0"), SK(kk, "", "7"), SK(kk, "b", "3")>>, <<x, x, x>>) : kk \in KeyKinds \cap StructKeyKinds}
       \cup (IF "any" \in KeyKinds THEN {Map("any", x.t, FALSE, <<k>>, <<x>>) : k \in AnyKeys} ELSE {})
       \cup {Map("string", x.t, TRUE, <<>>, <<>>), Map("string", x.t, FALSE, <<>>, <<>>)}
    ELSE {})
@@ -47,7 +49,7 @@ Wraps(x) ==
      {Slice(<<"any">>, FALSE, <<x, NILIF>>),
       V(<<"st", "any">>, "st", FALSE, "", <<>>, <<x, ZLeaf>>),
       Map("string", <<"any">>, FALSE, <<KeyFor("string"), Key2>>, <<x, NILIF>>)}
-  \cup (IF "any" \in KeyKinds /\ x.k # "nilif" THEN {Map("any", <<"any">>, FALSE, <<[kt |-> "int", kv |-> "1"]>>, <<x>>)} ELSE {})
+  \cup (IF "any" \in KeyKinds /\ x.k # "nilif" THEN {Map("any", <<"any">>, FALSE, <<K("int", "1")>>, <<x>>)} ELSE {})
 
 Init == d = 0 /\ v \in {Leaf(b) : b \in Bases} \cup {NILIF}
 WrapPtr == /\ v.k # "nilif" /\ PtrDepth(v.t) < MaxPtr
